@@ -41,6 +41,7 @@ pub struct Profile {
     pub refresh: u32,
     pub encaps: u32,
     pub encaps_for: u32,
+    pub encaps_wide: u32,
     pub check: u32,
     pub roundtrip: u32,
     pub recaps: u32,
@@ -71,6 +72,7 @@ impl Profile {
             refresh: 0,
             encaps: 0,
             encaps_for: 0,
+            encaps_wide: 0,
             check: 0,
             roundtrip: 0,
             recaps: 0,
@@ -123,6 +125,7 @@ pub fn op_strategy(p: &Profile) -> impl Strategy<Value = Op> {
     add(p.refresh, (any::<u16>(), any::<bool>()).prop_map(|(usk, keep)| Op::Refresh { usk, keep }).boxed());
     add(p.encaps, (any::<u16>(), ap(), bad(b)).prop_map(|(mpk, ap, bad)| Op::Encaps { mpk, ap, bad }).boxed());
     add(p.encaps_for, (any::<u16>(), any::<u16>(), any::<u8>()).prop_map(|(mpk, usk, variant)| Op::EncapsFor { mpk, usk, variant }).boxed());
+    add(p.encaps_wide, (any::<u16>(), any::<u16>()).prop_map(|(mpk, dim)| Op::EncapsWide { mpk, dim }).boxed());
     add(p.check, Just(Op::Check).boxed());
     add(p.roundtrip, (prop_oneof![3 => Just(0u8), 1 => Just(1u8), 2 => Just(2u8), 1 => Just(3u8)], any::<u16>()).prop_map(|(what, sel)| Op::RoundTrip { what, sel }).boxed());
     add(p.recaps, (any::<u16>(), any::<u16>()).prop_map(|(enc, mpk)| Op::Recaps { enc, mpk }).boxed());
